@@ -166,6 +166,7 @@ type Graph struct {
 	Nodes   []GNode
 	Outputs []GInput
 	Opsets  []*onnx.OperatorSetIdProto // nil = [{"", 13}]
+	IR      int64                      // ir_version; 0 = 7
 }
 
 // ValueInfo renders a declaration.
@@ -217,7 +218,14 @@ func (g *Graph) Proto() *onnx.ModelProto {
 	if ops == nil {
 		ops = []*onnx.OperatorSetIdProto{{Domain: "", Version: 13}}
 	}
-	return &onnx.ModelProto{IrVersion: 7, ProducerName: "verif", Graph: gp, OpsetImport: ops}
+	ir := g.IR
+	if ir == 0 {
+		ir = 7
+	}
+	if ir < 0 {
+		ir = 0 // explicitly absent
+	}
+	return &onnx.ModelProto{IrVersion: ir, ProducerName: "verif", Graph: gp, OpsetImport: ops}
 }
 
 // Bytes renders the graph as the bytes a user would load.
